@@ -384,6 +384,18 @@ static inline void _mzd_trtri_upper_submatrix(mzd_t *A, rci_t pivot_r, rci_t eli
 mzd_t *mzd_trtri_upper_russian(mzd_t *A, int k) {
   assert(A->nrows == A->ncols);
 
+#if __M4RI_HAVE_SSE2
+  if (__M4RI_ALIGNMENT(mzd_row(A, 0), 16)) {
+    /* a window starting at an odd word: the tables below are 16-byte aligned, the rows are not, and the
+     * vectorised row combination needs both in the same phase. Work on an aligned copy. */
+    mzd_t *Abar = mzd_copy(NULL, A);
+    mzd_trtri_upper_russian(Abar, k);
+    mzd_copy(A, Abar);
+    mzd_free(Abar);
+    return A;
+  }
+#endif
+
   if (k == 0) {
     k = m4ri_opt_k(A->nrows, A->ncols, 0);
     if (k >= 7) k = 7;
